@@ -28,7 +28,11 @@
 //! is a correct (key, aggregate) row of the reference, no key twice, and the k best output rows
 //! under the order the limit was pushed for (NULL aggregates last; for group-by-only both NULL
 //! placements) are a valid tie-aware top-k of the reference; soft limit: ≥ min(k, #groups) correct
-//! distinct rows. ResourcesExhausted under a memory limit → inconclusive.
+//! distinct rows. Model correction (found by seed 2): when the ordered limit also sits on an earlier
+//! stage (what the TopKAggregation rule produces), that stage drops contributions of groups outside
+//! its local top-k by design, so a last-stage row that ranks strictly after the k-th reference value
+//! may carry a partial (never better than the true) min/max; all rows at or before the boundary
+//! must be exact. ResourcesExhausted under a memory limit → inconclusive.
 //!
 //! Deviations from DESIGN.md: SQL-level GROUPING SETS / ROLLUP / CUBE are done elsewhere (c06sql);
 //! avg only over Float64 (the planner's coercion target) — decimal avg is left to C07.
@@ -720,7 +724,7 @@ impl Property for C06 {
         C06::case_strategy(tier)
     }
     fn budget(&self, tier: Tier) -> Budget {
-        Budget::new(tier.pick(2_400, 150_000), tier.pick(8, 16)).min_nontrivial(tier.pick(300, 10_000)).case_timeout(180)
+        Budget::new(tier.pick(6_000, 150_000), tier.pick(8, 16)).min_nontrivial(tier.pick(800, 10_000)).case_timeout(180)
     }
     fn rule(&self) -> String {
         "table with 0-3 typed group keys (small NULL/duplicate-heavy domains), six value columns, ORDER BY / FILTER columns, partitions, batch cuts, encodings; 0-4 aggregates; plan shape × ordered input × grouped TopK × skip-partial × memory limit × batch size × migration flag; \
@@ -972,10 +976,32 @@ fn run_case(case: &Case) -> CaseResult {
 
     if let Some(t) = &case.topk {
         let k = (t.limit as usize).max(1);
-        // every output row must be a reference row; no key twice
+        // Every output row must be a reference row and no key may come twice. When the limit is also
+        // pushed into an earlier stage (as the optimizer rule does), that stage legitimately drops
+        // contributions of groups outside its local top-k, so a row of the last stage may carry a
+        // partial min/max — but only for groups that rank strictly after the k-th reference value, and
+        // never a value better than the group's true aggregate.
+        let multi_stage = !matches!(case.shape, Shape::Single | Shape::SinglePartitioned { .. });
+        let relaxed = t.all_stages && multi_stage && !case.aggs.is_empty();
+        let desc0 = case.aggs.first().map(|a| a.kind == AggKind::Max).unwrap_or(false);
+        let boundary: Option<Val> = if relaxed && !expected.is_empty() {
+            let mut e: Vec<&Vec<Val>> = expected.iter().collect();
+            e.sort_by(|a, b| sort_cmp(&a[nk], &b[nk], desc0, false));
+            Some(e[k.min(e.len()) - 1][nk].clone())
+        } else {
+            None
+        };
         for (i, r) in got.iter().enumerate() {
             if !expected.iter().any(|e| same_row(e, r)) {
-                return CaseResult::violation(format!("grouped top-k: output row {} is not a row of the full aggregation (expected rows: {})", show_row(r), truncate(&format!("{expected:?}"), 600))).labels(labels);
+                let truth = expected.iter().find(|e| same_row(&e[..nk], &r[..nk]));
+                let tolerated = match (&boundary, truth) {
+                    (Some(b), Some(e)) => sort_cmp(&r[nk], b, desc0, false) == Ordering::Greater && sort_cmp(&r[nk], &e[nk], desc0, false) != Ordering::Less,
+                    _ => false,
+                };
+                if !tolerated {
+                    return CaseResult::violation(format!("grouped top-k: output row {} is not a row of the full aggregation (relaxed={relaxed}; expected rows: {})", show_row(r), truncate(&format!("{expected:?}"), 600))).labels(labels);
+                }
+                labels.push("topk:partial-value-outside-top-k".into());
             }
             if i > 0 && same_row(&got[i - 1][..nk], &r[..nk]) {
                 return CaseResult::violation(format!("grouped top-k: group key {} returned twice", show_row(&r[..nk]))).labels(labels);
